@@ -91,8 +91,10 @@ def sensitivity(a):
             sigs = [ln.strip() for ln in p.stdout.splitlines() if ln.startswith('  [')]
             ok = p.returncode == 1
             rows.append((sid, prop, ok, time.time() - t0))
-            print('selftest-sensitivity %s (%s): exit %d in %.0fs -> %s  %s' % (sid, prop, p.returncode, time.time() - t0, 'detected' if ok else 'MISSED', sigs[0][:160] if sigs else ''))
-            if not ok:
+            exp = meta.get('expected_miss', False)
+            print('selftest-sensitivity %s (%s): exit %d in %.0fs -> %s  %s' % (sid, prop, p.returncode, time.time() - t0,
+                  'detected' if ok else ('missed (documented as expected: %s)' % meta.get('why_missed', '')[:80] if exp else 'MISSED'), sigs[0][:160] if sigs else ''))
+            if not ok and not exp:
                 bad += 1
         finally:
             subprocess.run(['git', '-C', '/repo', 'worktree', 'remove', '--force', wt], capture_output=True)
